@@ -47,7 +47,7 @@ func NewVerifier(alg Algorithm, key crypto.PublicKey) (Verifier, error) {
 	switch alg {
 	case AlgorithmPS256, AlgorithmPS384, AlgorithmPS512:
 		vk, ok := key.(*rsa.PublicKey)
-		if !ok {
+		if !ok || vk == nil || vk.N == nil {
 			return nil, fmt.Errorf("%v: %w", alg, ErrInvalidPubKey)
 		}
 		// RFC 8230 section 6.1 requires RSA keys having a minimum size of 2048
@@ -62,7 +62,7 @@ func NewVerifier(alg Algorithm, key crypto.PublicKey) (Verifier, error) {
 		}, nil
 	case AlgorithmES256, AlgorithmES384, AlgorithmES512:
 		vk, ok := key.(*ecdsa.PublicKey)
-		if !ok {
+		if !ok || vk == nil || vk.Curve == nil || vk.X == nil || vk.Y == nil {
 			return nil, fmt.Errorf("%v: %w", alg, ErrInvalidPubKey)
 		}
 		if _, err := vk.ECDH(); err != nil {
@@ -77,7 +77,7 @@ func NewVerifier(alg Algorithm, key crypto.PublicKey) (Verifier, error) {
 		}, nil
 	case AlgorithmEdDSA:
 		vk, ok := key.(ed25519.PublicKey)
-		if !ok {
+		if !ok || len(vk) != ed25519.PublicKeySize {
 			return nil, fmt.Errorf("%v: %w", alg, ErrInvalidPubKey)
 		}
 		return &ed25519Verifier{
